@@ -22,7 +22,10 @@ went through the log the lock is expired -- not held again without an acquire, g
 (`KeepMonitor`); directed `stall` schedules: the holder stalls > U and resumes prolonging, the competitor's
 tryAcquire stamped in between is committed afterwards -- it must be granted and the old holder must not hold;
 in the directed `stale` schedules the holder that
-prolongs every < U/2 still answers isAcquired after catching up and nobody else was granted; (7) a client told that its
+prolongs every < U/2 still answers isAcquired after catching up and nobody else was granted; (8) at no instant have two clients been
+told (tryAcquire answered True, stamp less than U ago, no release of theirs committed since) that they hold the
+same lock -- directed `lapse`: the holder is silent for longer than U, nobody's prolongation purges the entry, it
+re-acquires, a competitor tries; (7) a client told that its
 acquisition failed does not keep the lock -- also when the outcome reported was open (`try_open`: callback(None,
 LEADER_CHANGED) while the command is committed later): no client considers a lock held, with no release of its
 own outstanding, when every one of its tryAcquire calls was answered with a failure (D73); (6) replicas
@@ -47,6 +50,7 @@ SIG_MUTEX = "batteries.ReplLockManager:mutex-broken"
 SIG_MUTEX_STALE = "batteries.ReplLockManager:stale-stamp-mutex"
 SIG_MUTEX_SNAPSHOT = "batteries.ReplLockManager:mutex-broken-after-snapshot"
 SIG_FAILED_KEPT = "batteries.ReplLockManager.tryAcquire:failed-acquire-kept"
+SIG_TWO_TOLD = "batteries.ReplLockManager.tryAcquire:two-clients-told-they-hold"
 
 
 def delay(rng, U, mode):
@@ -327,6 +331,26 @@ class World(object):
                     nsub = sum(1 for x in c["so"].submitted if x[0] == "rel" and x[1] == l)
                     if nsub == c["rel_app"].get(l, 0):          # no release of its own outstanding
                         holders.append(i + 1)
+            # (8) two clients told they hold the lock: each has a tryAcquire answered True whose stamp is less than U
+            # ago, its acquire is in the log and no release of its own was committed after it
+            cmds = [e[0] for e in self.log]
+            entitled = []
+            for i, c in enumerate(self.cl):
+                for a in c["attempts"]:
+                    if a["l"] == l and a["ans"] is not None and a["ans"][1] is True and now < a["att"] + self.U \
+                            and ("acq", l, i + 1, a["att"]) in cmds \
+                            and ("rel", l, i + 1) not in cmds[cmds.index(("acq", l, i + 1, a["att"])):]:
+                        entitled.append((i + 1, a["att"], a["ans"][0]))
+                        break
+            if len(entitled) > 1:
+                self.hit("told-true.2")
+                self.viols.append({"signature": SIG_TWO_TOLD,
+                                   "what": "at time %d two clients have been told they hold L%d (client, stamp of the tryAcquire, time of the "
+                                           "answer True): %s -- both stamps are less than U=%d ago and neither client's release was committed; "
+                                           "log %s" % (now, l, entitled, self.U, [lc.cmd_str(x) for x in cmds][-8:])})
+                return
+            elif entitled:
+                self.hit("told-true.1")
             for h in holders:
                 att = [a for a in self.cl[h - 1]["attempts"] if a["l"] == l]
                 if att and all(a["ans"] is not None and a["ans"][1] is not True for a in att):
@@ -340,8 +364,7 @@ class World(object):
                     # with the compensating release of fixes/D73 in place the only way left is the release being
                     # committed BEFORE the acquire it compensates (the acquire overtaken in the pipeline)
                     cmds = [e[0] for e in self.log]
-                    overtaken = any(("rel", l, h) in cmds[:cmds.index(("acq", l, h, a["att"]))] for a in late
-                                    if ("acq", l, h, a["att"]) in cmds)
+                    overtaken = any(lc.release_overtaken(self.cl[h - 1]["so"].submitted, cmds, l, h, a["att"]) for a in late)
                     self.viols.append({"signature": SIG_FAILED_KEPT + (":compensating-release-overtaken" if overtaken else ""),
                                        "what": "at time %d client %d considers L%d held (no release of its own outstanding) although every one "
                                                "of its tryAcquire calls was answered with a failure (attempt time, (answer time, answer)): %s, and "
@@ -474,6 +497,19 @@ def stall_case(rng, mode):
     return {"U": U, "ncl": 3, "nlk": 2, "mode": mode, "events": ev}
 
 
+def lapse_case(rng, mode):
+    """Directed: Y acquires and then shows no stamp for longer than U (nobody's prolongation goes through the log
+    either, so the stale entry stays in the table); Y re-acquires (told True again); a competitor tries right after."""
+    U = rng.choice((4, 8, 10, 12))
+    Y, Z, l = 0, 1, 1
+    ev = [("try", Y, l), ("flush", Y, 0), ("deliver", Y, 9), ("deliver", Z, 9)]
+    ev += [("adv", U + rng.choice((1, 2, U))), ("try", Y, l), ("flush", Y, 0), ("deliver", Y, 9)]
+    if rng.random() < 0.5:
+        ev += [("deliver", Z, 9)]
+    ev += [("adv", rng.choice((0, 1, max(1, U // 2 - 1)))), ("try", Z, l), ("flush", Z, 0), ("deliver", Z, 9), ("deliver", Y, 9)]
+    return {"U": U, "ncl": 3, "nlk": 2, "mode": mode, "events": ev}
+
+
 def open_case(rng, mode):
     """Directed (D73): Y's tryAcquire is reported as failed with an open outcome (LEADER_CHANGED) `told` after
     the attempt; its acquire is committed `took` after the attempt anyway (with whatever the wrapper submitted
@@ -539,9 +575,12 @@ def explore(ctx, bat, salt, ncases, max_viol=4):
             elif i % 8 == 5:
                 case = stall_case(rng, mode)
                 cov["directed.stall"] = cov.get("directed.stall", 0) + 1
-            elif i % 8 == 3:
+            elif i % 16 == 3:
                 case = open_case(rng, mode)
                 cov["directed.outcome-open"] = cov.get("directed.outcome-open", 0) + 1
+            elif i % 16 == 11:
+                case = lapse_case(rng, mode)
+                cov["directed.lapse-and-reacquire"] = cov.get("directed.lapse-and-reacquire", 0) + 1
             elif i % 4 == 0:
                 case = stale_case(rng) if mode == "stale" else directed_case(rng, mode)
                 cov["directed." + mode] = cov.get("directed." + mode, 0) + 1
@@ -581,7 +620,8 @@ FLOORS = ["try", "release", "tick.prolong", "tick.skip", "deliver", "partition",
           "directed.snapshot", "install.while-another-clients-lock-is-held", "restart.while-another-clients-lock-is-held",
           "directed.stall", "expect.competitor-granted-after-expiry", "expect.stalled-holder-does-not-hold",
           "pro.expires-lock.of-the-prolonging-holder", "acq.of-free-or-expired-lock",
-          "directed.outcome-open", "try.outcome-open"]
+          "directed.outcome-open", "try.outcome-open", "directed.lapse-and-reacquire", "told-true.1",
+          "acq.reacquire-of-own-expired-lock"]
 
 
 def run(ctx):
